@@ -6,7 +6,7 @@ Ser(p) == [ inc |-> [ a |-> SetToSeq(p.inc["a"]), b |-> SetToSeq(p.inc["b"]) ],
             co |-> SetToSeq({ [key |-> k, def |-> p.co[k]] : k \in DOMAIN p.co }),
             sv |-> SetToSeq({ [key |-> k, def |-> p.sv[k]] : k \in DOMAIN p.sv }) ]
 PSeq == SetToSeq(Programs)
-GenCases == [ i \in 1..Len(PSeq) |-> [ id |-> Family \o "-" \o ToString(i), prog |-> Ser(PSeq[i]) ] ]
+GenCases == [ i \in 1..Len(PSeq) |-> [ id |-> Family \o "-" \o ToString(i), cyc |-> HasRefCycle(PSeq[i]), prog |-> Ser(PSeq[i]) ] ]
 ASSUME ndJsonSerialize("cases.ndjson", GenCases)
 GenInit == prog = 0 /\ st = 0 /\ mods = <<>> /\ phase = "x" /\ todo = {}
 GenNext == UNCHANGED vars
